@@ -38,6 +38,7 @@ BODIES = {
     "multipart": (MP, "multipart/form-data; boundary=bb"),
     "empty": (b"", "application/json"),
     "text": (b"plain text body", "text/plain"),
+    "longjson": (b'{"items": [' + b", ".join(b'"%02d"' % i for i in range(40)) + b']}', "application/json"),
 }
 FORM_VALS = {"urlenc": [("a", "1"), ("b", "2"), ("a", "3")], "multipart": [("a", "v"), ("f", "<file:x:DATA>")]}
 
@@ -54,6 +55,8 @@ def chunkings(b, full):
         yield [b"", b[:1], b"", b[1:], b""]
         if len(b) <= 20:
             yield [b[i:i + 1] for i in range(len(b))]
+        else:
+            yield [b[i:i + 2] for i in range(0, len(b), 2)]  # dozens of small pieces (a slow uplink): 70+ messages / reads for the multipart body
 
 
 def model(kind, bname, seq, disc, nchunks_nonempty_before_disc):
@@ -533,6 +536,24 @@ def wsgi_transport(ctx, rng):
                 if v != want:
                     ctx.violation(f"sequential|{op}|wrong-value|transport-headers|wsgi", case, f"{v!r} instead of {want!r}")
                 ctx.case(("wsgi-transport-headers", bname, repr(extra), op))
+    # (d) a body that says how it is ENCODED (Content-Encoding): body / stream hand over the bytes as they arrived, on both interfaces
+    import gzip
+    import zlib
+
+    from vf import inflight
+    plain = b'{"compressed": "payload", "n": [1, 2, 3]}'
+    for coding, data in (("gzip", gzip.compress(plain)), ("deflate", zlib.compress(plain)), ("gzip", b"not gzip at all"), ("br", b"\x8b\x03\x80abc\x03"), ("identity", plain),
+                         ("gzip, identity", gzip.compress(plain)), ("x-unknown", plain)):
+        for op in ("body", "stream"):
+            apps = body_apps(op)
+            req = drivers.Req(method="POST", headers=[("Content-Type", "application/octet-stream"), ("Content-Encoding", coding), ("Content-Length", str(len(data)))], chunks=[data[:5], data[5:]])
+            for iface in ("wsgi", "asgi"):
+                got = inflight.solo(iface, apps[iface], req)
+                ctx.mon("sequential-model")
+                if got["body"] != repr(data).encode():
+                    ctx.violation(f"sequential|{op}|body-is-not-what-arrived|content-encoding|{iface}", {"iface": iface, "content_encoding": coding, "op": op, "body": data.hex()},
+                                  f"{got['body'][:80]!r} instead of {repr(data)[:80]}")
+            ctx.case(("content-encoding", coding, op, len(data)))
     for size in (65536, 65537, 70_000, 131072, 200_001):
         body = bytes((i * 7 + (i >> 9)) & 0xFF for i in range(size))
         for kind in ("buffered-reader", "bytesio"):
